@@ -837,14 +837,14 @@ Proof.
   assert (Hnn : (0 <= N)%Z) by apply round_dec_nonneg.
   assert (Hre : reread f (VFloat (S754_finite s m e)) = VFloat (sf_of_dec s N (- Z.of_nat d))).
   { unfold reread.
-    rewrite (render_float f dd false up sep (S754_finite s m e) Hk eq_refl).
+    rewrite (render_float f dd false up sep (S754_finite s m e) Hk eq_refl eq_refl).
     rewrite Hk. cbn [interp]. rewrite He. unfold with_sep.
     rewrite (dialect_roundtrip sep _ _ Hsep (plain_notin_comma _ (fixed_text_plain s _ d Hnn))).
     rewrite (fixed_text_parse_padded s _ d _ Hnn). reflexivity. }
   unfold stable_field. rewrite Hre.
   pose proof (missing_sf_of_dec s m e d Hb) as Hmis. fold N in Hmis.
-  rewrite (render_float f dd false up sep _ Hk Hmis).
-  rewrite (render_float f dd false up sep (S754_finite s m e) Hk eq_refl).
+  rewrite (render_float f dd false up sep _ Hk Hmis eq_refl).
+  rewrite (render_float f dd false up sep (S754_finite s m e) Hk eq_refl eq_refl).
   cbv zeta. rewrite Hst. reflexivity.
 Qed.
 
@@ -904,7 +904,7 @@ Proof.
   intros f dd up sep s Hk Hsep.
   assert (Hre : reread f (VFloat (S754_zero s)) = VFloat (S754_zero s)).
   { unfold reread.
-    rewrite (render_float f dd false up sep (S754_zero s) Hk eq_refl).
+    rewrite (render_float f dd false up sep (S754_zero s) Hk eq_refl eq_refl).
     rewrite Hk. cbn [interp]. cbv zeta. rewrite float_text_F.
     destruct (first_fit_some (fun d => with_sep true sep (fmtF up (S754_zero s) d)) (size f) dd)
       as [d [_ He]].
